@@ -35,6 +35,9 @@ type Val struct {
 	Ty   types.Type
 	// map-range iterator
 	Iter *iterInfo
+	// interface value statically known to wrap a pointer to a sub-location (e.g. heap.Interface(&b.items))
+	BoxLoc *Loc
+	BoxTy  types.Type
 }
 
 type iterInfo struct {
@@ -351,6 +354,7 @@ func (u *Unit) markPtr(name, shape string, elem types.Type) {
 }
 
 func (u *Unit) fieldHeap(structT types.Type, i int) (string, types.Type) {
+	structT = canon(structT)
 	st := structT.Underlying().(*types.Struct)
 	f := st.Field(i)
 	name := "H$" + u.enc.structName(structT) + "$" + f.Name()
@@ -372,9 +376,7 @@ func (u *Unit) cellHeap(t types.Type) string {
 func (u *Unit) arrHeap(elem types.Type) string {
 	s := u.enc.sortOf(elem)
 	name := "A$" + heapTypeKey(elem)
-	if s == "Slice" {
-		u.markPtr(name, "arr", elem)
-	}
+	u.markPtr(name, "arr", elem)
 	u.regHeap(name, "(Array Int (Array Int "+s+"))")
 	return name
 }
@@ -487,6 +489,7 @@ func (u *Unit) writeLoc(st *State, l *Loc, v string) {
 
 // fieldLoc: address of field i of the struct pointed to by p (p: pointer Val to struct type T).
 func (u *Unit) fieldLoc(p Val, structT types.Type, i int) *Loc {
+	structT = canon(structT)
 	s := structT.Underlying().(*types.Struct)
 	if p.Loc != nil {
 		np := append(append([]acc{}, p.Loc.Path...), acc{t: structT, i: i})
@@ -499,6 +502,7 @@ func (u *Unit) fieldLoc(p Val, structT types.Type, i int) *Loc {
 
 // load the value a pointer Val points to (pointee type t).
 func (u *Unit) load(st *State, p Val, t types.Type) Val {
+	t = canon(t)
 	if p.Loc != nil {
 		return Val{T: u.readLoc(st, p.Loc), S: u.enc.sortOf(t), Ty: t}
 	}
@@ -520,6 +524,7 @@ func (u *Unit) load(st *State, p Val, t types.Type) Val {
 }
 
 func (u *Unit) store(st *State, p Val, t types.Type, v Val) {
+	t = canon(t)
 	if p.Loc != nil {
 		u.writeLoc(st, p.Loc, v.T)
 		return
@@ -548,6 +553,7 @@ func (u *Unit) newRef(st *State) string {
 
 // zero-initialise object of type t at ref r
 func (u *Unit) zeroInit(st *State, r string, t types.Type) {
+	t = canon(t)
 	if isStructT(t) {
 		s := t.Underlying().(*types.Struct)
 		for i := 0; i < s.NumFields(); i++ {
